@@ -516,7 +516,10 @@ def _scale_bdry_cells(arr, space, inverse=False):
 def _offset_from_spaces(dom, ran):
     """Return index offset corresponding to given spaces."""
     affected = np.not_equal(dom.shape, ran.shape)
-    diff_l = np.abs(ran.grid.min() - dom.grid.min())
+    # The larger grid must start `offset >= 0` cells to the left of the
+    # smaller one and contain it
+    sign = np.where(np.greater(ran.shape, dom.shape), 1, -1)
+    diff_l = sign * (dom.grid.min() - ran.grid.min())
     offset_float = diff_l / dom.cell_sides
     offset = np.around(offset_float).astype(int)
     for i in range(dom.ndim):
@@ -524,6 +527,13 @@ def _offset_from_spaces(dom, ran):
             raise ValueError('in axis {}: range is shifted relative to domain '
                              'by a non-multiple {} of cell_sides'
                              ''.format(i, offset_float[i] - offset[i]))
+        max_offset = abs(ran.shape[i] - dom.shape[i])
+        if affected[i] and not 0 <= offset[i] <= max_offset:
+            raise ValueError('in axis {}: the smaller one of domain and '
+                             'range is not contained in the larger one '
+                             '(its grid starts {} cells to the right, must '
+                             'be between 0 and {})'
+                             ''.format(i, offset[i], max_offset))
     offset[~affected] = 0
     return tuple(offset)
 
